@@ -1,6 +1,6 @@
 (* C04 - Links diff accounts for every link exactly once. *)
 From Coq Require Import List NArith Arith Bool Permutation String.
-From WMD Require Import Gen.Tables Lib.Str Lib.PyChars Lib.Difflib Model.Links Proofs.DifflibProofs Proofs.LinksProofs.
+From WMD Require Import Gen.Tables Lib.Str Lib.PyChars Lib.Difflib Model.Links Proofs.DifflibProofs Proofs.LinksProofs Proofs.SortProofs.
 Import ListNotations.
 
 (* For every two link lists the diff lists every old link exactly once (as unchanged, changed or
@@ -48,6 +48,22 @@ Proof. exact zero_changes_same_links. Qed.
 Theorem C04_same_keys_zero_partial : forall a b,
   Forall2 (fun x y => same_key x y = true) a b -> count_changes (diff_of_lists a b) = 0.
 Proof. exact same_keys_zero_changes. Qed.
+
+(* the full statement: two pages whose sets of links carry the same keys report zero changes,
+   whatever order the sets are iterated in (this closes the gap left by the partial theorem) *)
+Theorem C04_same_link_sets_zero : forall fa fb arr_a arr_b,
+  Permutation arr_a (dedup fa []) -> Permutation arr_b (dedup fb []) ->
+  (forall k, In k (map key (dedup fa [])) <-> In k (map key (dedup fb []))) ->
+  count_changes (diff_of_lists (sort_links arr_a) (sort_links arr_b)) = 0.
+Proof.
+  intros fa fb arr_a arr_b Pa Pb Hk. apply same_keys_zero_changes.
+  exact (same_link_sets_sorted_alike fa fb arr_a arr_b Pa Pb Hk).
+Qed.
+
+(* the sorted list never depends on the iteration order of the set *)
+Theorem C04_sorted_list_is_canonical : forall found arrangement,
+  Permutation arrangement (dedup found []) -> sort_links arrangement = sort_links (dedup found []).
+Proof. exact page_links_order_free. Qed.
 
 (* in-page links never become entries: a Link is only made from an href whose first character is not '#' *)
 Theorem C04_no_in_page_links : forall a l,
